@@ -337,10 +337,12 @@ def run_hcb(case, ctx):
             occ += [b, b]
         idx.append(fock.index_of(occ))
     P = Hm[np.ix_(idx, idx)]
-    q = enc(H, "HCB", n, ctx=ctx)
-    got = qmat(q, n_orb)
-    ctx.check("hcb_matrix", refsim.dist(got, P) < 1e-8, "HCB: qubit operator is not the Hamiltonian projected on the paired-electron space",
-              lambda: {"n_orb": n_orb, "seed_case": case["i"], "integrals": flavour, "max_diff": refsim.dist(got, P)})
+    for utd in (False, True):
+        q = enc(H, "HCB", n, utd=utd, ctx=ctx)
+        got = qmat(q, n_orb)
+        ctx.check("hcb_matrix", refsim.dist(got, P) < 1e-8,
+                  f"HCB (up_then_down={utd}): qubit operator is not the Hamiltonian projected on the paired-electron space",
+                  lambda: {"n_orb": n_orb, "seed_case": case["i"], "integrals": flavour, "up_then_down": utd, "max_diff": refsim.dist(got, P)})
     ctx.tab("hcb_integrals", flavour)
     ctx.nontrivial(("hcb", n_orb, case["i"]))
     ctx.sample({"sub": "hcb", "n_orb": n_orb, "terms": len(H)})
